@@ -7,3 +7,15 @@ for f in sorted(glob.glob('/verif/evidence/*.json')):
         jsonschema.validate(json.load(open(f)), es); print(f, 'valid')
     except Exception as e:
         print(f, 'INVALID', str(e)[:300])
+m = json.load(open('/verif/MANIFEST.json'))
+import os
+for c in m['checks']:
+    f = c['evidence_file']
+    if os.path.exists(f):
+        e = json.load(open(f))
+        if e['level'] != c['level_claimed']['category']:
+            print('LEVEL MISMATCH', c['property_id'], e['level'], c['level_claimed']['category'])
+        if e['property_id'] != c['property_id']:
+            print('ID MISMATCH', f)
+    else:
+        print('NO EVIDENCE', c['property_id'])
